@@ -11,6 +11,7 @@
    of "change of named page": true = CSS Page 3. *)
 From Verif Require Import Layout.Paginate Layout.PaginateSpec Layout.PaginateProofs.
 From Verif Require Import Layout.PaginateCounters Layout.PaginateCountersProofs.
+From Verif Require Import Layout.PaginateMore.
 From Coq Require Import List ZArith NArith QArith Arith.
 Import ListNotations.
 Local Open Scope nat_scope.
@@ -85,6 +86,65 @@ Theorem C12_paginate_unique_partial : forall (css : bool) (d : doc),
     ps = paginate_ranges css d.
 Proof. exact paginate_unique_partial. Qed.
 Print Assumptions C12_paginate_unique_partial.
+
+(* partial2 (proofs: Layout/PaginateMore.v): on the same class -- non-negative metrics and
+   BOTH paginations have a fitting legal break wherever one of their pages starts -- any two
+   paginations satisfying the predicates are equal (not only each equal to the model) *)
+Theorem C12_paginate_unique_partial2 : forall (css : bool) (d : doc),
+  let us := lin_flows (d_flow d) in
+  Forall wf_unit us ->
+  forall ps ps',
+    pagination_ok pstate (length us) (forced_at css us) (allowed_at us) (fits_doc css d us)
+      (next_pstate css (d_rtl d) us) (init_pstate d) ps ->
+    Forall (conforming_exists pstate (length us) (forced_at css us) (allowed_at us) (fits_doc css d us)) ps ->
+    pagination_ok pstate (length us) (forced_at css us) (allowed_at us) (fits_doc css d us)
+      (next_pstate css (d_rtl d) us) (init_pstate d) ps' ->
+    Forall (conforming_exists pstate (length us) (forced_at css us) (allowed_at us) (fits_doc css d us)) ps' ->
+    ps = ps'.
+Proof. exact paginate_unique_between. Qed.
+Print Assumptions C12_paginate_unique_partial2.
+
+(* exists-unique: when the model's own pages are in the class, there is exactly one
+   pagination that satisfies the predicates and is in the class *)
+Theorem C12_paginate_exists_unique : forall (css : bool) (d : doc),
+  let us := lin_flows (d_flow d) in
+  Forall wf_unit us ->
+  Forall (conforming_exists pstate (length us) (forced_at css us) (allowed_at us) (fits_doc css d us))
+    (paginate_ranges css d) ->
+  exists! ps,
+    pagination_ok pstate (length us) (forced_at css us) (allowed_at us) (fits_doc css d us)
+      (next_pstate css (d_rtl d) us) (init_pstate d) ps /\
+    Forall (conforming_exists pstate (length us) (forced_at css us) (allowed_at us) (fits_doc css d us)) ps.
+Proof. exact paginate_exists_unique. Qed.
+Print Assumptions C12_paginate_exists_unique.
+
+(* --- content conservation, for every document: the units of the content pages, and of the
+   rendered pages (blank pages included), concatenated in page order are exactly 0 .. n-1 *)
+Theorem C12_ranges_conserve_content : forall (css : bool) (d : doc),
+  flat_map (fun p : pstate * nat * nat => let '(_, a, e) := p in seq a (e - a)) (paginate_ranges css d)
+  = seq 0 (length (lin_flows (d_flow d))).
+Proof. exact paginate_conserves. Qed.
+Print Assumptions C12_ranges_conserve_content.
+
+Theorem C12_pages_conserve_content : forall (css : bool) (d : doc),
+  concat (map pg_units (paginate css d)) = seq 0 (length (lin_flows (d_flow d))).
+Proof. exact paginate_pages_conserve. Qed.
+Print Assumptions C12_pages_conserve_content.
+
+(* --- monotonicity, for every document: the first content page starts at unit 0 in the
+   initial state; each next page starts where the previous one ends, strictly later, in the
+   successor state; the last page ends at the end of the flow; no pages iff no units *)
+Theorem C12_page_starts_monotone : forall (css : bool) (d : doc),
+  let us := lin_flows (d_flow d) in
+  let ps := paginate_ranges css d in
+  (forall p, nth_error ps 0 = Some p -> snd (fst p) = 0 /\ fst (fst p) = init_pstate d) /\
+  (forall i p q, nth_error ps i = Some p -> nth_error ps (S i) = Some q ->
+     snd (fst q) = snd p /\ snd (fst p) < snd (fst q) /\
+     fst (fst q) = next_pstate css (d_rtl d) us (fst (fst p)) (snd (fst p))) /\
+  (forall dflt, ps <> [] -> snd (last ps dflt) = length us) /\
+  (ps = [] <-> us = []).
+Proof. exact paginate_monotone. Qed.
+Print Assumptions C12_page_starts_monotone.
 
 (* --- page selectors: pageTypeMatch is the CSS Page 3 matching relation, with
    :nth(an+b) as "exists k >= 0, index + 1 = a k + b" although the code computes
